@@ -98,39 +98,84 @@ inductive Out where
   | err (e : Nat)
   deriving DecidableEq, Repr
 
-/-- `openat(AT_FDCWD, name, flags)` given the open-flag list of `Gen.OpenFlags` (`none` = `EINVAL` from
-compio/std before any system call) -/
-def St.openFile (s : St) (h : Nat) (name : String) (flags : Option (List Gen.OpenFlags.OFlag)) : St × Out :=
+/-! ### the flag word of `open_impl` (Linux x86-64 values) -/
+
+open Compio.Gen.OpenFlags (OFlag Mask)
+
+def flagBits : OFlag → Nat
+  | .RDONLY => 0
+  | .WRONLY => 1
+  | .RDWR => 2
+  | .CREATE => 0o100
+  | .EXCL => 0o200
+  | .TRUNC => 0o1000
+  | .CLOEXEC => 0o2000000
+
+def O_NOFOLLOW : Nat := 0o400000
+
+/-- what `.difference(mask)` leaves of a flag word; `OFlags::ACCMODE` = `O_ACCMODE` = 3, the two low bits -/
+def clearMask : Mask → Nat → Nat
+  | .ACCMODE, f => f / 4 * 4
+
+/-- the custom flags `OpenOptions::custom_flags(flags)` stores, given the masks the code removes -/
+def keepCustom : List Mask → Nat → Nat
+  | [], f => f
+  | m :: ms, f => keepCustom ms (clearMask m f)
+
+/-- `OFlags::CLOEXEC | access | creation | custom` -/
+def flagWord (fl : List OFlag) (custom : Nat) : Nat := fl.foldl (fun a f => a ||| flagBits f) custom
+
+def hasBit (w bit : Nat) : Bool := (w / bit) % 2 = 1
+
+/-- `openat(AT_FDCWD, name, word)` for a flag word: access mode = the two low bits (3 = Linux's "no read, no
+write" mode), `O_CREAT`, `O_EXCL`, `O_TRUNC`, `O_NOFOLLOW`. Returns the access mode of the new descriptor. -/
+def St.openWord (s : St) (h : Nat) (name : String) (word : Nat) : St × Out :=
+  let acc := word % 4
+  let creat := hasBit word 0o100
+  let excl := hasBit word 0o200
+  let trunc := hasBit word 0o1000
+  let nofollow := hasBit word O_NOFOLLOW
+  let w := acc = 1 || acc = 2
+  let r := acc = 0 || acc = 2
+  -- O_CREAT|O_EXCL does not follow a symbolic link in the last component; O_NOFOLLOW refuses one
+  let found : Except Nat (String × Option Node) :=
+    if creat && excl then .ok (name, lookup s.names name)
+    else if nofollow then
+      match lookup s.names name with
+      | some (.symlink _ _) => .error ELOOP
+      | other => .ok (name, other)
+    else s.resolve resolveFuel name
+  match found with
+  | .error e => (s, .err e)
+  | .ok (_, some (.symlink _ _)) => (s, .err EEXIST)
+  -- FIFOs are never opened through the file API by the harness (the driver answers `unsupported`)
+  | .ok (_, some (.fifo _)) => (s, .err EINVAL)
+  | .ok (_, some .dir) =>
+    if creat && excl then (s, .err EEXIST)
+    else if acc ≠ 0 || creat then (s, .err EISDIR)
+    else ({ s with handles := insert s.handles h ⟨none, r, w, 0⟩ }, .ok)
+  | .ok (_, some (.file ino)) =>
+    if creat && excl then (s, .err EEXIST)
+    else
+      let s := if trunc then s.setContent ino [] else s
+      ({ s with handles := insert s.handles h ⟨some ino, r, w, 0⟩ }, .ok)
+  | .ok (target, none) =>
+    if creat then
+      let ino := s.nextIno
+      let s := { s with names := insert s.names target (.file ino), nextIno := ino + 1 }
+      let s := s.setContent ino []
+      ({ s with handles := insert s.handles h ⟨some ino, r, w, 0⟩ }, .ok)
+    else (s, .err ENOENT)
+
+/-- `OpenOptions::open` given the open-flag list of `Gen.OpenFlags` (`none` = `EINVAL` from compio/std before
+any system call) and the caller's custom flags (masked as the code masks them) -/
+def St.openFileX (s : St) (h : Nat) (name : String) (flags : Option (List OFlag)) (custom : Nat) : St × Out :=
   match flags with
   | none => (s, .err EINVAL)
-  | some fl =>
-    let creat := fl.contains .CREATE
-    let excl := fl.contains .EXCL
-    let trunc := fl.contains .TRUNC
-    let w := fl.contains .WRONLY || fl.contains .RDWR
-    let r := fl.contains .RDONLY || fl.contains .RDWR
-    -- O_CREAT|O_EXCL does not follow a symbolic link in the last component
-    match (if creat && excl then .ok (name, lookup s.names name) else s.resolve resolveFuel name) with
-    | .error e => (s, .err e)
-    | .ok (_, some (.symlink _ _)) => (s, .err EEXIST)
-    -- FIFOs are never opened through the file API by the harness (the driver answers `unsupported`)
-    | .ok (_, some (.fifo _)) => (s, .err EINVAL)
-    | .ok (_, some .dir) =>
-      if creat && excl then (s, .err EEXIST)
-      else if w || creat then (s, .err EISDIR)
-      else ({ s with handles := insert s.handles h ⟨none, r, w, 0⟩ }, .ok)
-    | .ok (_, some (.file ino)) =>
-      if creat && excl then (s, .err EEXIST)
-      else
-        let s := if trunc then s.setContent ino [] else s
-        ({ s with handles := insert s.handles h ⟨some ino, r, w, 0⟩ }, .ok)
-    | .ok (target, none) =>
-      if creat then
-        let ino := s.nextIno
-        let s := { s with names := insert s.names target (.file ino), nextIno := ino + 1 }
-        let s := s.setContent ino []
-        ({ s with handles := insert s.handles h ⟨some ino, r, w, 0⟩ }, .ok)
-      else (s, .err ENOENT)
+  | some fl => s.openWord h name (flagWord fl (keepCustom Gen.OpenFlags.customMasks custom))
+
+def St.openFile (s : St) (h : Nat) (name : String) (flags : Option (List OFlag)) : St × Out :=
+  s.openFileX h name flags 0
 
 def St.mkdir (s : St) (name : String) : St × Out :=
   match lookup s.names name with
